@@ -163,6 +163,13 @@ def mutate(rng, case, good):
         if isinstance(node, dict) and case["paths"][nm][-1] in node:
             d = _set_at(d, case["paths"][nm], Odd())
             tags.append("wrong-leaf")
+    if rng.random() < 0.3:
+        # a fault INSIDE a container value: the error reaching the model loader already carries a trail
+        cands = [nm for nm in names if case["kinds"][nm] in ("list", "dict")]
+        if cands:
+            nm = rng.choice(cands)
+            d = _set_at(d, case["paths"][nm], [1, Odd(), 3] if case["kinds"][nm] == "list" else {"k": 1, "bad": Odd()})
+            tags.append("wrong-inner")
     if rng.random() < 0.08:
         level = rng.choice([lv for lv in levels if lv] or [()])
         if level:
